@@ -308,6 +308,23 @@ fn to_radix_values(r: &mut Rng, n: usize, radix: u32, count: usize) -> Vec<B> {
             // quick tier: a random third of the exponents per (type, radix)
             js.retain(|_| r.below(3) == 0);
         }
+        // decimal always, and one rotating other radix per run: every exponent up to capacity
+        let rot = [3u32, 7, 36, 100, 255, 5, 12][(r.0 % 7) as usize];
+        if radix == 10 || (radix == rot && n >= 8) {
+            let mut j = 1u32;
+            let mut p = rb.clone();
+            loop {
+                js.push(j);
+                let q = gen::umul(&gen::trim(p.clone()), &gen::trim(rb.clone()));
+                if gen::trim(q.clone()).len() > n {
+                    break;
+                }
+                p = gen::fit(&gen::trim(q), n);
+                j += 1;
+            }
+            js.sort();
+            js.dedup();
+        }
         for j in js {
             if j == 0 || j > 1200 {
                 continue;
@@ -434,6 +451,23 @@ fn fmt_values(r: &mut Rng, n: usize, count: usize) -> Vec<B> {
             v.push(gen::add1(&gen::add1(&gen::add1(&gen::add1(&gen::add1(&q))))));
             if r.below(2) == 0 {
                 v.push(gen::negate(&q));
+            }
+        }
+    }
+    // a digit equal to 10^9 / 10^4 / 10^2 / 10 (the decimal chunk bases of u64/u32/u16/u8 digits) above other digits
+    for (g, base) in [(8usize, 1_000_000_000u64), (4, 10_000), (2, 100), (1, 10)] {
+        if 2 * g <= n {
+            let k = 1 + r.below((n / g - 1) as u64) as usize;
+            let mut x = gen::random(r, n);
+            for b in x.iter_mut().skip(k * g) {
+                *b = 0;
+            }
+            let pb = base.to_le_bytes();
+            for t in 0..g {
+                x[k * g + t] = pb[t];
+            }
+            if x[n - 1] & 0x80 == 0 {
+                v.push(x);
             }
         }
     }
